@@ -69,7 +69,8 @@ class BatchUnaware(Exception):
 
 
 class RecLearner:
-    def __init__(self, script, fmt="AP", has_score=False, batch_mode="aware", kw_keys=()):
+    def __init__(self, script, fmt="AP", has_score=False, batch_mode="aware", kw_keys=(), info=False):
+        self.write_info = info
         self.script = script
         self.fmt = fmt
         self.batch_mode = batch_mode
@@ -126,15 +127,31 @@ class RecLearner:
             return ({"action_prob": (a, p)}, kw)
         raise ValueError(f)
 
+    def _info(self, d):
+        """write to coba's global learning_info, as learners do to report per-interaction diagnostics; returns what was written"""
+        if self.write_info and d:
+            from coba.context import CobaContext
+            CobaContext.learning_info.update(d)
+            return canon(d)
+        return None
+
     def _predict_row(self, context, actions, b):
         e = self._entry(self.n_pred)
+        self._last_info = self._info(e.get("ip"))
         self.n_pred += 1
+        if self.fmt in ("pmf", "pmfK"):
+            # answer with a PMF over the action list; SafeLearner draws the action (the learner does not know which)
+            ws = [w[0] / w[1] for w in dict((n, w) for n, w in e["pm"])[len(actions)]]
+            kw = self._kw(e) if self.fmt == "pmfK" else {}
+            self.calls.append({"m": "predict", "ctx": canon(context), "acts": canon(actions), "ctx_id": id(context), "b": b,
+                               "ret": {"a": None, "p": None, "kw": canon(kw), "pmf": canon(ws)}, "info": self._last_info})
+            return ({"pmf": ws}, kw) if self.fmt == "pmfK" else {"pmf": ws}
         a = self._choose(e, actions)
         has_p = self.fmt in ("AP", "APK", "dAP", "dAPK")
         has_k = self.fmt.endswith("K")
         p, kw = (self._prob(e) if has_p else None), (self._kw(e) if has_k else {})
         self.calls.append({"m": "predict", "ctx": canon(context), "acts": canon(actions), "ctx_id": id(context), "b": b,
-                           "ret": {"a": canon(a), "p": canon(p), "kw": canon(kw)}})
+                           "ret": {"a": canon(a), "p": canon(p), "kw": canon(kw)}, "info": self._last_info})
         return self._fmt(a, p, kw)
 
     # ---- Learner interface
@@ -162,6 +179,7 @@ class RecLearner:
             return
         self.calls.append({"m": "learn", "ctx": canon(context), "a": canon(action), "r": canon(reward), "p": canon(probability),
                            "kw": canon(kwargs), "ctx_id": id(context), "b": None})
+        self.calls[-1]["info"] = self._info(self._entry(self.n_pred).get("il"))
 
     def _score_row(self, context, actions, action, b):
         e = self._entry(self.n_score)
